@@ -35,6 +35,8 @@ MODULE = "checks.bounded_C19"
 PY = "/venv/bin/python"
 
 CLI_GRAMMARS = ["assgn", "rightrec", "num", "multichar", "csvish", "altstart"]
+# a line-oriented format: every word ends with a line break (only used for `solve -n 1 > file; check file`)
+EXTRA_GRAMMARS = {"nlwords": {"<start>": ["<rec>"], "<rec>": ["<key>=<val>\n"], "<key>": ["a", "b"], "<val>": ["0", "1"]}}
 
 CONSTRAINTS: Dict[str, List[str]] = {
     "assgn": ['exists <var> v: v = "a"', 'forall <digit> d: not (d = "0")', 'count(start, "<assgn>", "2")',
@@ -42,6 +44,7 @@ CONSTRAINTS: Dict[str, List[str]] = {
     "rightrec": ['exists <item> i: i = "b"', 'count(start, "<item>", "2")', 'forall <item> i: i = "a"'],
     "num": ['forall <digit> d: not (d = "9")', 'exists <sign> s: s = "-"', 'str.len(<digits>) < 3'],
     "multichar": ['exists <id> i: i = "bar"', 'forall <cond> c: not (c = "false")'],
+    "nlwords": ['exists <key> k: k = "b"'],
     "csvish": ['forall <char> c: c = "a"', 'count(start, "<row>", "2")'],
     "altstart": ['exists <key> k: k = "j"', 'forall <val> v: v = "1"'],
 }
@@ -55,6 +58,9 @@ BAD_GRAMMARS = {
     "grammar-py-wrong-type": ("py", "grammar = 42\n"),
     "grammar-py-syntax-error": ("py", "def grammar(:\n"),
     "grammar-option-syntax-error": ("opt", '<start> ::= '),
+    # the same two well-formedness defects delivered through --grammar instead of a file
+    "grammar-option-undefined-nonterminal": ("opt", '<start> ::= <d>\n<d> ::= "a" | "b" <e>\n'),
+    "grammar-option-without-start": ("opt", '<s> ::= <d>\n<d> ::= "a" | "b" <d>\n'),
 }
 GOOD_SMALL = '<start> ::= <d>\n<d> ::= "a" | "b" <d>\n'
 BAD_CONSTRAINTS = {
@@ -273,6 +279,10 @@ def make_cases(tier: str, seed: int) -> List[dict]:
                 cases.append(dict(cmd=cmd, gname=gname, gmode=gmodes[i % 3], copts=[cons[i % 2]], cfiles=[],
                                   imode="opt" if (i % 2 == 0 and s) else "file", input=s,
                                   label="member" if s in valid else ("empty-file" if s == "" else "non-member")))
+    for gi, gname in enumerate(CLI_GRAMMARS + ["nlwords"]):
+        cons = CONSTRAINTS[gname]
+        cases.append(dict(cmd="solve", gname=gname, gmode=gmodes[gi % 3], copts=[cons[0]], cfiles=[], imode=None, input=None,
+                          label="solve-single", single=True))
     # defects: one per case
     for cmd in ("check", "parse", "solve", "repair", "mutate"):
         needs_input = cmd != "solve"
@@ -334,7 +344,7 @@ def build_argv(case: dict, tmp: str) -> Tuple[List[str], Optional[str]]:
     elif case.get("goodg"):
         files.append(_write(tmp, "g.bnf", GOOD_SMALL))
     else:
-        g = GRAMMARS[case["gname"]]
+        g = {**GRAMMARS, **EXTRA_GRAMMARS}[case["gname"]]
         if case["gmode"] == "bnf":
             files.append(_write(tmp, "g.bnf", grammar_to_bnf(g, semicolons=case["idx"] % 2 == 0)))
         elif case["gmode"] == "opt":
@@ -359,7 +369,7 @@ def build_argv(case: dict, tmp: str) -> Tuple[List[str], Optional[str]]:
         files.append(_write(tmp, "input2.txt", case["input"]))
     cmd = case["cmd"]
     if cmd == "solve":
-        opts += ["-n", "5", "-t", "15"]
+        opts += ["-n", "1" if case.get("single") else "5", "-t", "15"]
         if case.get("outdir"):
             outdir = os.path.join(tmp, "out")
             os.mkdir(outdir)
@@ -527,6 +537,24 @@ def _split_for_i(gargs: List[str], inp: str) -> List[str]:
 
 def _solve_followup(case, out, outdir, tmp, desc, info) -> List[Tuple[str, str]]:
     v = []
+    if case.get("single"):
+        # `isla solve -n 1 > file; isla check file`: the printed output of one solution (the word plus print's line
+        # end) is an input file that check must accept, whatever characters the word ends with
+        if out == "":
+            info["solve_without_output"] = 1
+            return v
+        info["solve_outputs"] = 1
+        argv = ["check"] + _gargs(case, tmp) + [_write(tmp, "printed.txt", out)]
+        r2 = run_inproc(argv)
+        if r2["exc"] is not None:
+            v.append((f"solve-then-check:printed-output-as-file:check-uncaught-{r2['exc'].split(':')[0]}",
+                      f"{desc}: printed {out!r:.60}; check: {r2['exc']}"))
+        elif r2["code"] != 0:
+            v.append((f"solve-then-check:printed-output-as-file:check-rejects-printed-solution:exit-{r2['code']}",
+                      f"{desc}: printed {out!r:.60} saved to a file; check -> {r2['code']} {r2['out'].strip()!r}"))
+        else:
+            info["solve_outputs_accepted_by_check"] = info.get("solve_outputs_accepted_by_check", 0) + 1
+        return v
     if outdir:
         sols = []
         for name in sorted(os.listdir(outdir)):
@@ -592,7 +620,7 @@ def run(rep, tier, seed):
     rep.rule("case = one invocation of cli.main(cmd, options..., files...) on a fresh scratch directory: 6 fixed grammars (as .bnf file, "
              "--grammar text, .py file) x constraint deliveries (-c once/twice, .isla file, file plus -c, 'true') x inputs (members, "
              "non-members, empty file, newline-only file, JSON tree of a member, JSON tree of another grammar, open JSON tree, JSON "
-             "non-tree, JSON scalar) for check; parse/solve/repair/mutate on subsets; one defect per defect case (8 malformed grammars, "
+             "non-tree, JSON scalar) for check; parse/solve/repair/mutate on subsets; one defect per defect case (10 malformed grammars, "
              "8 malformed constraints, missing grammar, missing input, two inputs, nonexistent file) x 5 commands; a case is non-trivial "
              "when the oracle fixes the expected exit status or the command is followed up (parse -> check, solve -> check)")
     rep.bound("input strings from ref_trees with <= 24 nodes; <= 5 solutions per solve call (-t 15); repair/mutate with -t 3; "
